@@ -172,16 +172,22 @@ def erv3_http_maps_errors(ctx):
     ctx.rule('ERV-3', 'every HTTP handler that runs a query maps the error to an HTTP error '
                       'response', floor=4)
     P = ctx.P
-    handlers = {}
+    # a handler = the async fn with all closures / async blocks nested in it: the call that creates
+    # the query future, the await and the error mapping may sit in different nested bodies
+    # (`stream::iter(..map(|q| run_query(q))).buffered(n)` is as good as a loop of awaits)
+    from .durability import top_function
+    groups = {}
     for b in P.fn_bodies():
         if b.crate != 'locustdb' or not b.name.startswith('server::'):
             continue
-        if calls_matching(b, lambda n: n.endswith('locustdb::LocustDB::run_query')):
-            handlers[b.name] = b
+        groups.setdefault(top_function(P, b).name, []).append(b)
+    handlers = {t: bs for t, bs in groups.items()
+                if any(calls_matching(b, lambda n: n.endswith('locustdb::LocustDB::run_query')) for b in bs)}
     ctx.require(len(handlers) >= 4, 'ERV-3: fewer than 4 handlers call run_query (%s)' % sorted(handlers))
-    for name, b in sorted(handlers.items()):
-        maps = calls_matching(b, lambda n: n.endswith('server::map_err_response'))
-        unwraps = [ps for ps in panics.panic_sources(b) if ps.kind == 'unwrap'
+    for top, bs in sorted(handlers.items()):
+        name = top + '::{closure#0}'
+        maps = [m for b in bs for m in calls_matching(b, lambda n: n.endswith('server::map_err_response'))]
+        unwraps = [ps for b in bs for ps in panics.panic_sources(b) if ps.kind == 'unwrap'
                    and 'QueryError' in (ps.term.func or '') and 'QueryOutput' in (ps.term.func or '')]
         ctx.check('ERV-3', '%s|maps-error' % name, bool(maps) and not unwraps,
                   'handler routes the query result through map_err_response (%d) and never '
@@ -229,3 +235,61 @@ def ord9_insert(ctx):
                   not any(cfg.can_reach(ib.id, bb.id) for (ib, it) in ing) and
                   not any(cfg.can_reach(bb.id, ib.id) for (ib, it) in ing),
                   '400 path neither follows nor precedes a call to ingest_efficient', where(bt))
+
+
+# ------------------------------------------------------------------------------------ ORD-14
+UNORDERED = re.compile(r'(buffer_unordered|FuturesUnordered|for_each_concurrent|select_all|select_ok|'
+                       r'JoinSet|try_buffer_unordered|flatten_unordered|mpsc::[A-Za-z:<>_ ]*channel|'
+                       r'crossbeam|par_iter|into_par_iter)')
+
+
+def ord14_multi_query_positional(ctx):
+    ctx.rule('ORD-14', 'the answers of a multi-query request are positional (no query id in the '
+                       'response): the handler collects them in request order, never in completion '
+                       'order', floor=1)
+    P = ctx.P
+    from .durability import top_function
+    groups = {}
+    for b in P.fn_bodies():
+        if b.crate == 'locustdb' and b.name.startswith('server::'):
+            groups.setdefault(top_function(P, b).name, []).append(b)
+    n = 0
+    for top, bs in sorted(groups.items()):
+        runs = [c for b in bs for c in calls_matching(b, lambda x: x.endswith('locustdb::LocustDB::run_query'))]
+        if not runs:
+            continue
+        # a multi-query handler: run_query inside a loop or an iterator adaptor closure
+        multi = False
+        for b in bs:
+            cfg = CFG(b)
+            for (blk, t) in calls_matching(b, lambda x: x.endswith('locustdb::LocustDB::run_query')):
+                if cfg.in_loop(blk.id) or b.name != top + '::{closure#0}':
+                    multi = True
+        if not multi:
+            continue
+        n += 1
+        hits = []
+        sorts = []
+        for b in bs:
+            for blk, t in b.calls():
+                if blk.cleanup:
+                    continue
+                f = t.func or ''
+                if UNORDERED.search(f):
+                    hits.append((b, t))
+                if re.search(r'::sort(_unstable)?_by(_key)?(::<|$)', f.split('(')[0]):
+                    sorts.append(t)
+        if hits and not sorts:
+            b, t = hits[0]
+            ctx.violation('ORD-14', '%s|request-order' % top,
+                          'results of a multi-query request are gathered through a completion-order '
+                          'combinator (%s) and not re-sorted: answer i is no longer the answer to '
+                          'query i whenever a later query finishes first'
+                          % UNORDERED.search(t.func).group(1), where(t))
+        else:
+            ctx.ok('ORD-14', '%s|request-order' % top,
+                   'query futures are awaited / buffered in request order (%d run_query site(s), %d '
+                   'completion-order combinators%s)' % (len(runs), len(hits),
+                                                         ', re-sorted' if hits else ''),
+                   where(runs[0][1]))
+    ctx.require(n >= 1, 'ORD-14: no handler runs several queries per request')
